@@ -102,6 +102,7 @@ func (e *Engine) xlog(st *State, method string) spec.LogVal {
 	e.extraFn["xm:"+base] = fmt.Sprintf("(declare-const %s Int)\n(declare-fun at_%s (Int) GhostEv)", base, base)
 	l := spec.LogVal{Base: base}
 	st.xm[method] = l
+	st.facts = append(st.facts, sx.App(">=", sx.Atom(base), sx.Int(0))) // a log has a non-negative length
 	return l
 }
 
